@@ -182,6 +182,10 @@ func (g *fnGen) block(depth int) []model.Node {
 // whose caller-side namesakes hold strings).
 func (g *fnGen) arg(f fam) model.Expr {
 	t := g.t
+	if rapid.IntRange(0, 6).Draw(t, "nilarg") == 0 {
+		// nil is a value like any other: the parameter is BOUND to it (and hides a caller variable of the same name)
+		return model.Lit{V: nil}
+	}
 	switch f {
 	case famInt:
 		if rapid.Bool().Draw(t, "var") {
@@ -337,6 +341,11 @@ func fixed() [][]model.Node {
 	add(pair, emit(call("pair", v("b"), model.Lit{V: "lit"})))
 	add(pair, emit(call("pair", call("pair", v("b"), v("a")), v("a"))))
 	add(pair, emit(call("pair", v("a"), call("pair", v("b"), v("a"))))) // the same function called inside a LATER argument
+	// nil arguments: the parameter is bound to nil and hides the caller's variable of the same name
+	add(let("isset", model.FnLit{Params: []string{"a", "b"}, Body: []model.Node{sif(v("a"), ret(model.Lit{V: "a-set"})), sif(v("b"), ret(model.Lit{V: "b-set"})), ret(model.Lit{V: "none"})}}),
+		emit(call("isset", model.Lit{V: nil}, model.Lit{V: nil})), T("|"), emit(call("isset", model.Lit{V: nil}, v("a"))), T("|"), emit(call("isset", v("b"), model.Lit{V: nil})))
+	add(let("deep", model.FnLit{Params: []string{"a", "n"}, Body: []model.Node{sif(model.Bin{Op: "==", L: v("n"), R: model.Lit{V: 0}}, sif(v("a"), ret(model.Lit{V: "saw outer a"})), ret(model.Lit{V: "a is nil"})),
+		ret(call("deep", model.Lit{V: nil}, model.Bin{Op: "-", L: v("n"), R: model.Lit{V: 1}}))}}), emit(call("deep", model.Lit{V: "outer"}, model.Lit{V: 2})))
 	add(tri, emit(call("tri", v("a"), call("tri", v("b"), v("c"), v("a")), call("tri", v("c"), v("c"), v("b")))))
 	add(let("pick", model.FnLit{Params: []string{"a", "b"}, Body: []model.Node{ret(v("a"))}}), emit(call("pick", model.Lit{V: 9}, call("pick", model.Lit{V: 2}, model.Lit{V: 3}))))
 	add(let("ack", model.FnLit{Params: []string{"m", "n"}, Body: []model.Node{
@@ -371,7 +380,7 @@ func fixed() [][]model.Node {
 	return out
 }
 
-const rule = "(E) 39 fixed programs: swapped and rotated namesake arguments, nested calls, results used in + == < ! || and if tests, emission inside if/for blocks with content after it, aliasing, higher-order application, a function returning a function, recursion to depth 25, first-return-wins with dead code; each in the tag-per-statement and in the compact single-tag layout. (R) generated functions of 0-4 parameters (families int/string/bool) whose bodies are if/else-if/else decision chains over the parameters nested to depth 3, every path ending in return <unique label>, with dead code after returns and local lets; argument tuples from literals, plain variables, caller variables NAMED LIKE THE FUNCTION'S OWN PARAMETERS, and calls of the SAME function in any argument position; 12 use sites (emit, let-then-emit, ==, if test, +, string concat, argument of a user function / Go helper, inside if / for blocks with text after, higher-order through a parameter). Oracle: reference interpreter (arguments evaluated in the caller's scope, parameters bound to argument values, fresh scope, first return reached). Non-trivial: every generated program (distinct by template text)."
+const rule = "(E) 41 fixed programs: swapped and rotated namesake arguments, nested calls, results used in + == < ! || and if tests, emission inside if/for blocks with content after it, aliasing, higher-order application, a function returning a function, recursion to depth 25, first-return-wins with dead code; each in the tag-per-statement and in the compact single-tag layout. (R) generated functions of 0-4 parameters (families int/string/bool) whose bodies are if/else-if/else decision chains over the parameters nested to depth 3, every path ending in return <unique label>, with dead code after returns and local lets; argument tuples from literals (incl. nil), plain variables, caller variables NAMED LIKE THE FUNCTION'S OWN PARAMETERS, and calls of the SAME function in any argument position; 12 use sites (emit, let-then-emit, ==, if test, +, string concat, argument of a user function / Go helper, inside if / for blocks with text after, higher-order through a parameter). Oracle: reference interpreter (arguments evaluated in the caller's scope, parameters bound to argument values, fresh scope, first return reached). Non-trivial: every generated program (distinct by template text)."
 
 func setup(t *testing.T) *vk.Run {
 	r := vk.Start(t, "C16", rule,
